@@ -339,6 +339,7 @@ func init() {
 		o.peAssign(fn("readOptHeader", "pe_dd4_start_64", "", "Z", nil), "dd4Start", 1)
 		o.peAssign(fn("readOptHeader", "pe_dd4_end", "(dd4_start : Z)", "Z", map[string]string{"dd4Start": "dd4_start"}), "dd4End", 0)
 		o.peSlice(fn("readOptHeader", "pe_optmagic_len", "", "Z", nil), "buf", 0, 1)
+		o.peCond(fn("readOptHeader", "pe_opt_short", "(buf_len : Z)", "bool", map[string]string{"len(buf)": "buf_len"}), "len(buf) < 2", 0)
 		ohLeaves := map[string]string{"peStart": "pe_start", "fh.SizeOfOptionalHeader": "opt_size", "dd4Start": "dd4_start", "opt.NumberOfRvaAndSizes": "num_rva"}
 		o.peCond(fn("readOptHeader", "pe_no_room_32", "(num_rva : Z)", "bool", ohLeaves), "NumberOfRvaAndSizes", 0)
 		o.peCond(fn("readOptHeader", "pe_no_room_64", "(num_rva : Z)", "bool", ohLeaves), "NumberOfRvaAndSizes", 1)
